@@ -75,7 +75,7 @@ Proof. eexists. eexists. split; [vm_compute; reflexivity|]. split; [vm_compute; 
 (* ---- 2. coefficient_add / _sub / _mul of the pinned tree, both operands numeric: the result is written with
    integer_add(K, &S->value.num, ..) WHATEVER S currently is.  When S holds a polynomial this writes an mpz
    through the `rec` member of the union (alloc/size/limb pointer overlay size/capacity): undefined behaviour,
-   in practice a SEGV in GMP.  Modelled as "no result". *)
+   in practice a SEGV in GMP.  Modelled as "no result".  (Repaired in /repo by commit 6f8f93f.) *)
 Definition c_num_op_prefix (op : Z -> Z -> Z) (S a b : coef) : option coef :=
   match a, b with
   | CNum z1, CNum z2 => match S with CNum _ => Some (CNum (op z1 z2)) | CRec _ _ _ => None end
